@@ -21,8 +21,74 @@ fn l(s: &str) -> Tok {
     Tok::lit(s)
 }
 
+/// an alternation (or repetition) of invariant branches that are equal, a leading run of one
+/// another (by whole components or by characters), or different: only the first kind is invariant
+/// text, the others must stay out of the prefix (`{a,a/b}/*`, `{a/b,a}`, `{ab,a}/`, `<a/b:2>*`)
+fn gen_inv_branches(t: &mut Tape) -> Expr {
+    fn comps(t: &mut Tape) -> Vec<String> {
+        let n = 1 + t.below(3);
+        (0..n).map(|_| t.pick(&["a", "b", "ab", "é"]).to_string()).collect()
+    }
+    fn spell(cs: &[String]) -> Expr {
+        let mut e = Vec::new();
+        for (i, c) in cs.iter().enumerate() {
+            if i > 0 {
+                e.push(Tok::Sep);
+            }
+            e.push(Tok::lit(c));
+        }
+        e
+    }
+    let a = comps(t);
+    let mut b = a.clone();
+    match t.below(6) {
+        0 => {},
+        1 => b.push(t.pick(&["b", "c"]).to_string()),
+        2 => {
+            if b.len() > 1 {
+                b.pop();
+            }
+            else {
+                b.push("b".into());
+            }
+        },
+        3 => {
+            let k = b.len() - 1;
+            b[k].push('b');
+        },
+        4 => b = comps(t),
+        _ => {
+            let k = b.len() - 1;
+            b[k] = b[k].to_uppercase();
+        },
+    }
+    let mut bs = vec![spell(&a), spell(&b)];
+    if t.chance(60) {
+        bs.push(spell(&a));
+    }
+    if t.chance(128) {
+        bs.swap(0, 1);
+    }
+    let mut e = match t.below(4) {
+        0 => vec![Tok::Rep { body: spell(&a), lo: 2, hi: Some(2), spell: 1 }],
+        1 => vec![Tok::Alt(vec![spell(&a)])],
+        _ => vec![Tok::Alt(bs)],
+    };
+    if t.chance(60) {
+        e.insert(0, Tok::Sep);
+        e.insert(0, l("x"));
+    }
+    if t.chance(170) {
+        e.push(Tok::Sep);
+    }
+    e
+}
+
 fn gen_prefix(t: &mut Tape) -> Expr {
     let li = |s: &str| Tok::Lit { text: s.into(), ci: true };
+    if t.chance(50) {
+        return gen_inv_branches(t);
+    }
     match t.below(18) {
         0 => vec![],
         1 => vec![l("a"), Tok::Sep],
